@@ -561,6 +561,28 @@ def real_atoms():
             "qhash": T.QualHashsumStr, "dur": T.Duration, "unit": T.PintUnit, "qty": T.PintQuantity}
 
 
+def _literal(vals):
+    """`typing.Literal[vals]` built without typing's cache. The cache key does not distinguish `Literal[1, True]` from
+    `Literal[True, 1]` (the tuples are equal and hash alike), so in a long-lived worker process the hint - and with it which of
+    several `==` members pydantic returns - would depend on the families built before (seen as a spurious model/implementation
+    disagreement of C12 in the thorough tier)."""
+    import typing
+
+    try:
+        return typing.Literal._getitem.__wrapped__(typing.Literal, *vals)
+    except AttributeError:
+        return typing.Literal[vals]
+
+
+def typing_cache_clear():
+    """Same reason as `_literal`, one level up: `List[Literal[1, True]]`, `Optional[...]`, `Union[...]` are cached by typing
+    under keys that compare `Literal[1, True] == Literal[True, 1]` (order-insensitive equality of Literal aliases)."""
+    import typing
+
+    for f in getattr(typing, "_cleanups", []):
+        f()
+
+
 def to_hint(ty, ns, fwd=()):
     import typing
 
@@ -574,7 +596,7 @@ def to_hint(ty, ns, fwd=()):
     if k == "ext":
         return EXT_TYPES[ty[1]][0]()
     if k == "lit":
-        return typing.Literal[tuple(ty[1])]
+        return _literal(tuple(ty[1]))
     if k == "opt":
         return typing.Optional[to_hint(ty[1], ns, fwd)]
     if k == "union":
@@ -617,6 +639,8 @@ class Family:
             base = self.classes[cd["parent"]] if cd["parent"] else MetadataSchema
             body = {"__module__": self.modname, "__qualname__": name, "__annotations__": {}}
             for fname, ty, dflt in cd["fields"]:
+                if '"lit"' in json.dumps(ty):
+                    typing_cache_clear()
                 body["__annotations__"][fname] = to_hint(ty, ns, fwd=(name,))
                 if dflt is not None:
                     body[fname] = dflt["v"]
